@@ -8,6 +8,7 @@ import (
 	"log/slog"
 	"net/http"
 	"os"
+	"path/filepath"
 	"strings"
 	"sync"
 	"time"
@@ -36,9 +37,10 @@ func RoutingContext(r *http.Request) *routingContext {
 }
 
 type Router struct {
-	statePath   string
-	services    *ServiceMap
-	serviceLock sync.RWMutex
+	statePath    string
+	services     *ServiceMap
+	serviceLock  sync.RWMutex
+	snapshotLock sync.Mutex
 }
 
 type ServiceDescription struct {
@@ -321,6 +323,11 @@ func (r *Router) findOrCreateService(name string, options ServiceOptions, target
 }
 
 func (r *Router) saveStateSnapshot() error {
+	// Snapshots are serialized, so that overlapping commands cannot leave an
+	// older listing on disk after a newer one.
+	r.snapshotLock.Lock()
+	defer r.snapshotLock.Unlock()
+
 	services := []*Service{}
 	r.withReadLock(func() error {
 		for _, service := range r.services.All() {
@@ -329,13 +336,24 @@ func (r *Router) saveStateSnapshot() error {
 		return nil
 	})
 
-	f, err := os.Create(r.statePath)
+	// Write to a temporary file alongside the state file, and rename it into
+	// place once it is complete. That way the state file always holds a whole
+	// snapshot, even if we are interrupted part way through.
+	f, err := os.CreateTemp(filepath.Dir(r.statePath), filepath.Base(r.statePath)+".tmp-*")
 	if err != nil {
+		slog.Error("Unable to save state", "error", err, "path", r.statePath)
 		return err
 	}
 
 	err = json.NewEncoder(f).Encode(services)
+	if closeErr := f.Close(); err == nil {
+		err = closeErr
+	}
+	if err == nil {
+		err = os.Rename(f.Name(), r.statePath)
+	}
 	if err != nil {
+		os.Remove(f.Name())
 		slog.Error("Unable to save state", "error", err, "path", r.statePath)
 		return err
 	}
